@@ -250,7 +250,7 @@ P('C10', claimed=True, level='other', contracts=['base_clock_sched', 'base_rng',
   unreached=['the RT side for all schedules'])
 
 P('C11', claimed=True, level='other',
-  contracts=['base_stream', 'base_condition', 'base_clock_stop'], drivers=['vf.drivers.C11'],
+  contracts=['base_stream', 'base_condition', 'base_clock_stop', 'base_stream_more'], drivers=['vf.drivers.C11'],
   level_text=('Frame conditions of Routine.next are discharged for every outcome of the body (yield, '
               'return, StopStream, YieldAndReset, AlwaysYield, other exceptions): the current time '
               'thread is restored, the parent link cleared, the state is the documented one; the guard '
@@ -286,7 +286,7 @@ P('C12', claimed=True, level='proof',
   technique='contract-based deductive verification: class invariants + two-call lemma functions over the real method bodies, z3')
 
 P('C13', claimed=True, level='other',
-  contracts=['seq_valuepatterns', 'seq_listpatterns', 'seq_filterpatterns', 'seq_oppatterns', 'seq_eventpatterns', 'seq_morepatterns', 'seq_morefilters', 'base_streamconv', 'seq_patternstreams'], drivers=['vf.drivers.C13'],
+  contracts=['seq_valuepatterns', 'seq_listpatterns', 'seq_filterpatterns', 'seq_oppatterns', 'seq_eventpatterns', 'seq_morepatterns', 'seq_morefilters', 'base_streamconv', 'seq_patternstreams', 'seq_randompatterns'], drivers=['vf.drivers.C13'],
   level_text=('Generator bodies under contract with `yield` / `yield from` as ghost trace events and per-pass '
               'obligations (the inductive step of the denotation): Pseries/Pgeom (first value = start, each '
               'pass draws the step once, yields the current value, next = current (+|*) step, quiet end on '
